@@ -215,7 +215,11 @@ def snvpost(task):
                 M._denovo_assembler = da
                 m = M.DenovoMCMC(ploidy=P, n_alleles=[n], steps=2, fix_homozygous=thr, inbreeding=F, random_seed=1)
                 g, _ = m._mcmc(reads, counts)
-                dec.append({"thr": thr, "sampled": seen.get("nhet", 0) == 1, "allele": int(np.asarray(g)[0, 0, 0])})
+                dec.append({"thr": thr, "sampled": seen.get("nhet", 0) == 1, "allele": int(np.asarray(g)[0, 0, 0]), "path": "_mcmc"})
+                # the public entry point (what `mchap assemble` calls): same decision, made with the sample's inbreeding
+                seen.clear()
+                tr = m.fit(reads, read_counts=counts)
+                dec.append({"thr": thr, "sampled": seen.get("nhet", 0) == 1, "allele": int(np.asarray(tr.genotypes)[0, 0, 0, 0]), "path": "fit"})
             res["decisions"] = dec
             out.append(res)
     finally:
